@@ -403,6 +403,11 @@ def _template_probe(w: World, name: str):
     src = "{% " + tag + (" / %}" if fmt == "shorthand" else f" '{name}' / %}}")
     engine = Engine(builtins=[])
     engine.template_builtins = list(engine.template_builtins) + [w.libs[0]]
+    # process-global memo start_tag -> (node subclass, *first* registry that parsed the tag); every world has
+    # fresh registries, so the memo of the previous world is dropped (the library raises RuntimeError otherwise)
+    from django_components.component import component_node_subclasses_by_name
+
+    component_node_subclasses_by_name.clear()
     try:
         out = Template(src, engine=engine).render(Context({}))
     except TemplateSyntaxError as ex:
